@@ -1,7 +1,8 @@
 import Grip.Spec.C04
+import GripProofs.Lemmas.C04Reopen
 
 namespace Grip.Props.C04
-open Grip.C03 Grip.C04 Grip.C04.Spec
+open Grip.C03 Grip.C04 Grip.C04.Spec Grip.Props.C04.Lemmas
 
 /-- Label-index lookups only return existing vertices carrying the label (any persisted map,
     in particular every crash state): kvgraph filters stale index entries on read. -/
@@ -31,5 +32,53 @@ theorem lookup_sound (m : KV) : LookupSound m := by
         · simp at hp
     · simp at hp
   · simp at hp
+
+/-- The write list of every call, applied completely, is exactly the persisted map of C03's `step`:
+    the crash cuts below are cuts of the very transition the C03 refinement theorems talk about. -/
+theorem step_eq_writes (s : KState) (op : Op) : applyAll (writes s op) s.kv = (step s op).1.kv :=
+  Lemmas.step_eq_writes s op
+
+/-- A history of calls and restarts, started on an empty directory, keeps the in-memory field
+    registry equal (as a set) to the persisted field keys. -/
+theorem fields_in_sync (h : List Ev) : FieldsSync (runEv {} h) :=
+  sync_run h {} (fun _ => rfl)
+
+/-- **Reopen is transparent.**  Insert a restart anywhere in a history (which may itself contain
+    restarts): every call answers the same, and afterwards the persisted map — hence every
+    observation: graph list, lookups, listings, neighbours, label-index lookups, label listings —
+    is the same as without the restart.  Timestamps are not part of `Obs`. -/
+theorem reopen_transparent (h₁ h₂ : List Ev) :
+    Obs (runEv {} (h₁ ++ [.reopen] ++ h₂)) = Obs (runEv {} (h₁ ++ h₂)) ∧
+    results {} (h₁ ++ [.reopen] ++ h₂) = results {} (h₁ ++ h₂) := by
+  have hs : FieldsSync (runEv {} h₁) := fields_in_sync h₁
+  have hsim : Sim (reopen (runEv {} h₁)) (runEv {} h₁) := sim_reopen_self _ hs
+  have hrun := sim_run h₂ _ _ hsim
+  constructor
+  · have e1 : runEv {} (h₁ ++ [.reopen] ++ h₂) = runEv (reopen (runEv {} h₁)) h₂ := by
+      rw [runEv_append, runEv_append]; rfl
+    have e2 : runEv {} (h₁ ++ h₂) = runEv (runEv {} h₁) h₂ := runEv_append _ _ _
+    rw [e1, e2]; unfold Obs; rw [hrun.1.1]
+  · have e1 : results {} (h₁ ++ [.reopen] ++ h₂) = results {} h₁ ++ results (reopen (runEv {} h₁)) h₂ := by
+      rw [results_append, results_append, runEv_append, List.append_assoc]; rfl
+    rw [e1, results_append, hrun.2]
+
+/-- The same from any state whose registry is in sync (e.g. any state reached after a restart). -/
+theorem reopen_transparent_from (s : KState) (hs : FieldsSync s) (h : List Ev) :
+    Obs (runEv (reopen s) h) = Obs (runEv s h) ∧ results (reopen s) h = results s h := by
+  have hrun := sim_run h _ _ (sim_reopen_self s hs)
+  exact ⟨by unfold Obs; rw [hrun.1.1], hrun.2⟩
+
+/-- Non-vacuity: the empty directory is in sync, and a restart of it is transparent for the history
+    "create a graph, add a vertex" whatever the names are. -/
+example (g : String) (v : VertexIn) :
+    Obs (runEv {} ([.reopen] ++ [.op (.addGraph g), .op (.addV g [v])])) =
+    Obs (runEv {} [.op (.addGraph g), .op (.addV g [v])]) :=
+  (reopen_transparent [] [.op (.addGraph g), .op (.addV g [v])]).1
+
+/-- A restart in the middle: the registry reloaded from the field keys still indexes the vertex. -/
+example (g : String) (v : VertexIn) :
+    Obs (runEv {} ([.op (.addGraph g)] ++ [.reopen] ++ [.op (.addV g [v])])) =
+    Obs (runEv {} ([.op (.addGraph g)] ++ [.op (.addV g [v])])) :=
+  (reopen_transparent [.op (.addGraph g)] [.op (.addV g [v])]).1
 
 end Grip.Props.C04
